@@ -34,6 +34,40 @@ var dqCore = []dqOp{
 	{"Offer", 0, 0}, {"Unshift", 1, 0}, {"Shift", 2, 2}, {"Pop", 3, 0}, {"Clear", 6, 0}, {"KeepNodePoolCount(1)", 7, 1},
 }
 
+// ideal is the reference double-ended sequence (ring buffer, O(1) at both ends).
+type ideal struct {
+	buf     []int
+	head, n int
+}
+
+func (d *ideal) grow() {
+	if d.n < len(d.buf) {
+		return
+	}
+	nb := make([]int, 2*len(d.buf)+8)
+	for i := 0; i < d.n; i++ {
+		nb[i] = d.buf[(d.head+i)%len(d.buf)]
+	}
+	d.buf, d.head = nb, 0
+}
+func (d *ideal) pushBack(v int)  { d.grow(); d.buf[(d.head+d.n)%len(d.buf)] = v; d.n++ }
+func (d *ideal) pushFront(v int) { d.grow(); d.head = (d.head - 1 + len(d.buf)) % len(d.buf); d.buf[d.head] = v; d.n++ }
+func (d *ideal) front() int      { return d.buf[d.head] }
+func (d *ideal) back() int       { return d.buf[(d.head+d.n-1)%len(d.buf)] }
+func (d *ideal) popFront() int   { v := d.front(); d.head = (d.head + 1) % len(d.buf); d.n--; return v }
+func (d *ideal) popBack() int    { v := d.back(); d.n--; return v }
+func (d *ideal) clear()          { d.head, d.n = 0, 0 }
+func (d *ideal) String() string {
+	if d.n > 12 {
+		return fmt.Sprintf("(%d items, head %d, tail %d)", d.n, d.front(), d.back())
+	}
+	o := make([]int, d.n)
+	for i := range o {
+		o[i] = d.buf[(d.head+i)%len(d.buf)]
+	}
+	return fmt.Sprint(o)
+}
+
 func dqHistoryString(alpha []dqOp, seq []int) string {
 	var sb strings.Builder
 	for i, s := range seq {
@@ -52,7 +86,7 @@ func runDequeHistory(alpha []dqOp, seq []int) (key, what string, nontrivial bool
 	q := fpgo.NewLinkedListQueue[int]()
 	var qi fpgo.Queue[int] = q
 	var si fpgo.Stack[int] = q
-	var model []int
+	model := &ideal{}
 	next := 1
 	headRem, tailRem := false, false
 	for step, s := range seq {
@@ -75,13 +109,13 @@ func runDequeHistory(alpha []dqOp, seq []int) (key, what string, nontrivial bool
 				default:
 					gerr = qi.Put(v)
 				}
-				model = append(model, v)
+				model.pushBack(v)
 				check = true
 			case 1:
 				v := next
 				next++
 				gerr = q.Unshift(v)
-				model = append([]int{v}, model...)
+				model.pushFront(v)
 				check = true
 			case 2:
 				switch op.arg {
@@ -92,39 +126,37 @@ func runDequeHistory(alpha []dqOp, seq []int) (key, what string, nontrivial bool
 				default:
 					got, gerr = q.Shift()
 				}
-				if len(model) == 0 {
+				if model.n == 0 {
 					werr = fpgo.ErrQueueIsEmpty
 				} else {
-					want = model[0]
-					model = model[1:]
+					want = model.popFront()
 					headRem = true
 				}
 				check = true
 			case 3:
 				got, gerr = si.Pop()
-				if len(model) == 0 {
+				if model.n == 0 {
 					werr = fpgo.ErrStackIsEmpty
 				} else {
-					want = model[len(model)-1]
-					model = model[:len(model)-1]
+					want = model.popBack()
 					tailRem = true
 				}
 				check = true
 			case 4:
 				got, gerr = q.Peek()
-				if len(model) == 0 {
+				if model.n == 0 {
 					werr = fpgo.ErrQueueIsEmpty
 				} else {
-					want = model[0]
+					want = model.front()
 				}
 				check = true
 			case 5:
 				got = q.Count()
-				want = len(model)
+				want = model.n
 				check = true
 			case 6:
 				q.Clear()
-				model = model[:0]
+				model.clear()
 			case 7:
 				if op.arg < 0 {
 					q.ClearNodePool()
@@ -134,12 +166,12 @@ func runDequeHistory(alpha []dqOp, seq []int) (key, what string, nontrivial bool
 			}
 		})
 		if pv == nil && !check {
-			if c := q.Count(); c == len(model) {
+			if c := q.Count(); c == model.n {
 				continue
 			}
 		}
 		hist := ""
-		if pv != nil || !check || gerr != werr || (werr == nil && got != want) || q.Count() != len(model) {
+		if pv != nil || !check || gerr != werr || (werr == nil && got != want) || q.Count() != model.n {
 			hist = dqHistoryString(alpha, seq[:step+1]) // only built when something is about to be reported
 			if len(hist) > 600 {
 				hist = hist[:250] + ",...," + hist[len(hist)-300:] + fmt.Sprintf(" (%d steps)", step+1)
@@ -160,25 +192,23 @@ func runDequeHistory(alpha []dqOp, seq []int) (key, what string, nontrivial bool
 			}
 		}
 		// Count must equal the model length after every step (observable through Count()).
-		if c := q.Count(); c != len(model) {
+		if c := q.Count(); c != model.n {
 			return fmt.Sprintf("count-after:%s", op.name),
-				fmt.Sprintf("history [%s]: Count()=%d, ideal length %d", hist, c, len(model)), headRem && tailRem
+				fmt.Sprintf("history [%s]: Count()=%d, ideal length %d", hist, c, model.n), headRem && tailRem
 		}
 	}
 	// drain: everything that is left must come out in order (alternating ends exercises both links)
-	for i := 0; len(model) > 0; i++ {
+	for i := 0; model.n > 0; i++ {
 		var got int
 		var gerr error
 		var want int
 		pv, where := core.Catch(func() {
 			if i%2 == 0 {
 				got, gerr = q.Shift()
-				want = model[0]
-				model = model[1:]
+				want = model.popFront()
 			} else {
 				got, gerr = q.Pop()
-				want = model[len(model)-1]
-				model = model[:len(model)-1]
+				want = model.popBack()
 			}
 		})
 		hist := dqHistoryString(alpha, seq)
@@ -208,7 +238,7 @@ func init() {
 		Meta: func(c *core.Ctx) core.Meta {
 			return core.Meta{
 				Level: "exploration",
-				Rule: "bounded-exhaustive: every operation history of exactly the stated length (all shorter histories are prefixes and are checked step by step) over the 15-letter full alphabet and the 6-letter core alphabet, plus PRNG histories of length 200 and burst histories (backlogs of 70..4200 (thorough 20000) items built, drained through both ends, rebuilt and drained again, with empty-queue probes); " +
+				Rule: "bounded-exhaustive: every operation history of exactly the stated length (all shorter histories are prefixes and are checked step by step) over the 15-letter full alphabet and the 6-letter core alphabet, plus PRNG histories of length 200 and burst histories (backlogs of 70..66000 items built, drained through both ends, rebuilt and drained again, with empty-queue probes); " +
 					"each executed against the real LinkedListQueue (through the Queue, Stack and concrete views) and an ideal slice deque in lock-step, followed by an alternating-ends drain. distinct_nontrivial counts histories that performed both a head removal and a tail removal on a non-empty deque",
 				Assumptions: []string{"values are unique ints; node-pool operations are no-ops of the ideal deque",
 					"single goroutine (the property is about histories, not schedules)"},
@@ -288,9 +318,9 @@ func runC06(c *core.Ctx) {
 	})
 	// burst histories: a backlog far beyond any node-pool bound is built, drained, rebuilt and drained again (through
 	// both ends), with empty-queue probes in between - free-list / node-recycling paths only show at this scale
-	bursts := [][2]int{{70, 3}, {300, 2}, {1030, 2}, {1100, 3}, {2100, 2}, {4200, 2}}
+	bursts := [][2]int{{70, 3}, {300, 2}, {1030, 2}, {1100, 3}, {2100, 2}, {4200, 2}, {8300, 2}, {16500, 2}, {17000, 3}, {33000, 2}, {66000, 2}}
 	if c.Thorough() {
-		bursts = append(bursts, [2]int{9000, 3}, [2]int{20000, 2}, [2]int{1025, 6}, [2]int{1024, 4}, [2]int{513, 5})
+		bursts = append(bursts, [2]int{9000, 3}, [2]int{20000, 2}, [2]int{131100, 2}, [2]int{262200, 2}, [2]int{1025, 6}, [2]int{1024, 4}, [2]int{513, 5})
 	}
 	var burstSeqs [][]int
 	for bi, b := range bursts {
